@@ -57,9 +57,11 @@ Definition append_pending (p : pb) : res (pb * bool) :=
 (* the `for _ in 0..MAX_READY_CHUNKS_PER_POLL` loop of poll_stream.
    Result: new buffer and [woken] = a wake-up of the polling task is guaranteed
    (self-wake `cx.waker().wake_by_ref()`, or the upstream returned Pending). *)
-Fixpoint poll_loop (n : nat) (p : pb) (appended : bool) : res (pb * bool) :=
+Fixpoint poll_loop (o25 : bool) (n : nat) (p : pb) (appended : bool) : res (pb * bool) :=
   match n with
-  | O => Ok (p, appended)                                   (* after the loop: if appended { wake } *)
+  | O => Ok (p, if o25 then appended else true)
+      (* after the loop.  original (o25 = true, F25): if appended { wake };
+         repaired (fixes/F25.patch): wake unconditionally — the stream was ready 16 times *)
   | S n' =>
       match p_pending p with
       | Some _ =>
@@ -68,8 +70,9 @@ Fixpoint poll_loop (n : nat) (p : pb) (appended : bool) : res (pb * bool) :=
           | Ok (p1, a) =>
               let appended1 := appended || a in
               if is_some (p_pending p1) || (p_limit p1 <=? lenN (p_buf p1))
-              then Ok (p1, appended1)                       (* if appended { wake }; return *)
-              else poll_loop n' p1 appended1                (* continue *)
+              then Ok (p1, if o25 then appended1 else true) (* original: if appended { wake }; return
+                                                               repaired: wake; return *)
+              else poll_loop o25 n' p1 appended1                (* continue *)
           end
       | None =>
           match p_stream p with
@@ -79,8 +82,8 @@ Fixpoint poll_loop (n : nat) (p : pb) (appended : bool) : res (pb * bool) :=
               | Ok (p1, a) =>
                   let appended1 := appended || a in
                   if is_some (p_pending p1) || (p_limit p1 <=? lenN (p_buf p1))
-                  then Ok (p1, appended1)
-                  else poll_loop n' p1 appended1
+                  then Ok (p1, if o25 then appended1 else true)
+                  else poll_loop o25 n' p1 appended1
               end
           | EErr :: rest => Err EPayload                    (* Ready(Some(Err(err))) *)
           | [] => Ok (set_eof p true, false)                (* Ready(None): eof, no wake *)
@@ -89,11 +92,11 @@ Fixpoint poll_loop (n : nat) (p : pb) (appended : bool) : res (pb * bool) :=
       end
   end.
 
-Definition poll_stream_n (max_chunks : nat) (p : pb) : res (pb * bool) :=
-  if p_limit p =? 0 then Err EOverflow else poll_loop max_chunks p false.
+Definition poll_stream_n (o25 : bool) (max_chunks : nat) (p : pb) : res (pb * bool) :=
+  if p_limit p =? 0 then Err EOverflow else poll_loop o25 max_chunks p false.
 
-Definition poll_stream (p : pb) : res (pb * bool) :=
-  poll_stream_n (N.to_nat MULTIPART_MAX_READY_CHUNKS) p.
+Definition poll_stream (o25 : bool) (p : pb) : res (pb * bool) :=
+  poll_stream_n o25 (N.to_nat MULTIPART_MAX_READY_CHUNKS) p.
 
 (* ---- reads ---- *)
 
